@@ -158,6 +158,7 @@ def parseExpr : Sexp → Option Expr
       some (.phi (← incs.mapM (fun i => match i with
         | .list [k, c, v] => do some ((← k.nat?), (← c.nat?), (← v.nat?))
         | _ => none)))
+  | .list [.atom "other", .atom n] => some (.other n)
   | .list (.atom n :: _) => some (.other n)
   | _ => none
 
@@ -316,6 +317,8 @@ def opt {α} (o : Option α) (why : String) : M α :=
 /-- Does this expression kind need an `Emit` (i.e. is it *not* available on demand)? -/
 def needsEmit : Expr → Bool
   | .lit _ | .const _ | .zero _ | .arg _ | .global _ | .localVar _ | .callResult _ => false
+  -- literals of unmodelled widths, overrides, and the result expressions of statements
+  | .other n => !(n.startsWith "lit:" || n.startsWith "Literal" || n == "override" || n.endsWith "Result")
   | _ => true
 
 def evalConstExpr (m : Module) : Nat → Nat → M Val
